@@ -45,6 +45,7 @@ type SpecEnv struct {
 	allocBase string // objects with ref >= allocBase are "fresh"
 	point     *ssa.BasicBlock // program point at which source names are resolved
 	atEnd     bool
+	before    ssa.Instruction // clauses attached to an instruction (sites) see the variables as they are just before it
 	inOld     bool
 	depth     int
 	bound     map[string]bool
@@ -234,7 +235,7 @@ func (env *SpecEnv) lookupInAct(name string) (TV, bool) {
 				}
 				val := nr.val
 				if a == act {
-					val = reaching(nr, env.point, env.atEnd)
+					val = reaching(nr, env.point, env.atEnd, env.before)
 				}
 				if v, ok := a.env[val]; ok {
 					return TV{v, val.Type()}, true
